@@ -46,6 +46,7 @@ type HistCfg struct {
 	ExtraEdit   func(step int, p *Project, d *verifsim.Disk) string // scenario-specific edit applied after the generic ones
 	NoSnapshots bool
 	SkipGeneric func(step int) bool // true: no generic edits in this step (ExtraEdit still runs)
+	InitialSleep time.Duration      // let simulated time pass before the first build (files become "old")
 }
 
 var clockSteps = []time.Duration{0, time.Millisecond, 500 * time.Millisecond, 1500 * time.Millisecond, 3500 * time.Millisecond, 10 * time.Second}
@@ -68,6 +69,9 @@ func RunHistory(rc *RunCtx, p *Project, o *OptModel, d *verifsim.Disk, cfg HistC
 			return
 		}
 		var dirtyFn func() []string
+		if cfg.InitialSleep > 0 {
+			verifsim.Sleep(cfg.InitialSleep)
+		}
 		for step := 0; step <= cfg.Steps; step++ {
 			rec := &BuildRec{Step: step}
 			if step > 0 {
